@@ -3945,6 +3945,16 @@ impl<'s> Semantics<'s> {
 
             block.assign(scalar("CF", 1), cf);
 
+            // OF: set if the sign changed (defined for 1-bit shifts, undefined otherwise)
+            let sign_change = Expr::xor(dst.clone(), result.clone())?;
+            block.assign(
+                scalar("OF", 1),
+                Expr::trun(
+                    1,
+                    Expr::shr(sign_change, expr_const(bits as u64 - 1, bits))?,
+                )?,
+            );
+
             self.set_zf(block, result.clone())?;
             self.set_sf(block, result.clone())?;
 
@@ -3999,6 +4009,16 @@ impl<'s> Semantics<'s> {
             )?;
 
             block.assign(scalar("CF", 1), cf);
+
+            // OF: set if the sign changed (defined for 1-bit shifts, undefined otherwise)
+            let sign_change = Expr::xor(dst.clone(), result.clone())?;
+            block.assign(
+                scalar("OF", 1),
+                Expr::trun(
+                    1,
+                    Expr::shr(sign_change, expr_const(bits as u64 - 1, bits))?,
+                )?,
+            );
 
             self.set_zf(block, result.clone())?;
             self.set_sf(block, result.clone())?;
